@@ -27,6 +27,7 @@ Cs(n, solute, solvent, q, qu, total, tu) == [call |-> "create_solution", n |-> n
 Cf(src, n, solute, solvent, t, nu, du, total, tu) == [call |-> "create_solution_from", src |-> src, n |-> n, solute |-> solute,
                                                       solvent |-> solvent, t |-> t, nu |-> nu, du |-> du, total |-> total, tu |-> tu]
 Us(o) == [call |-> "uses", o |-> o]
+UsL(os) == [call |-> "uses_list", os |-> os]
 Ss(name) == [call |-> "start_stage", name |-> name]
 Es(name) == [call |-> "end_stage", name |-> name]
 Bk == [call |-> "bake"]
@@ -50,7 +51,9 @@ LIFE_Alphabet == <<
   Rm("b", "-", "E"), Rm("u", "-", "W"), Dl("a", "N", "mol", "L", "W", R(1, 10)), Dl("u", "N", "mol", "L", "W", R(1, 10)),
   DlAs("a", "N", "mol", "L", "W", R(1, 10), "renamed"),
   Fl("p", "plate", "W", "L", I(2)), Fl("u", "-", "W", "L", I(6)),
-  Ss("s1"), Es("s1"), Ss("s2"), Es("s2"), Ss("all"), Es("all"), Bk>>
+  Ss("s1"), Es("s1"), Ss("s2"), Es("s2"), Ss("all"), Es("all"), Bk,
+  \* several objects in one uses() call: two that share a name (a, a2), and a fresh pair
+  UsL(<<"b", "a", "a2">>), UsL(<<"p", "u">>)>>
 
 (***************************************************************************)
 (* PROG: programs over two containers, a non-uniform 2x2 plate and         *)
